@@ -4,6 +4,7 @@ package main
 // Memory model (DESIGN.md 2.3): typed component heaps H_<sort> : atype -> ref -> cell -> value.
 
 import (
+	"crypto/sha1"
 	"fmt"
 	"go/ast"
 	"go/token"
@@ -379,7 +380,14 @@ func (e *Engine) lit(s string) string {
 	if n, ok := e.lits[s]; ok {
 		return n
 	}
-	n := fmt.Sprintf("lit_%d", len(e.lits))
+	// content-based name: independent of which other functions are being translated at the same time
+	h := sha1.Sum([]byte(s))
+	n := fmt.Sprintf("lit_%x", h[:6])
+	for _, other := range e.lits {
+		if other == n {
+			panic("string literal name collision")
+		}
+	}
 	e.lits[s] = n
 	e.litOrder = append(e.litOrder, s)
 	return n
